@@ -144,6 +144,30 @@ func (e *env) mintedByAdd(pool string, r, a sdk.Uint) (m *big.Int, ok bool) {
 	return lpUnits.BigInt(), true
 }
 
+// c02Units: the C02 invariant as an observation on the implementation — pool units and the units of
+// EVERY provider record of that pool (not only this harness's accounts), for both pools.
+func c02Units(e *env, out *Out, class string) {
+	for _, pool := range unlockPools {
+		p, err := e.app.ClpKeeper.GetPool(e.ctx, pool)
+		if err != nil {
+			continue
+		}
+		lps, err := e.app.ClpKeeper.GetAllLiquidityProvidersForAsset(e.ctx, clptypes.Asset{Symbol: pool})
+		if err != nil {
+			panic(err)
+		}
+		parts := make([]string, 0, len(lps))
+		for _, lp := range lps {
+			parts = append(parts, lp.LiquidityProviderUnits.String())
+		}
+		us := "-"
+		if len(parts) > 0 {
+			us = strings.Join(parts, ",")
+		}
+		out.Emit(fmt.Sprintf("chk c02.units tag=%s.units %s %s %s", class, pool, p.PoolUnits, us), "true", "chk.c02units", false)
+	}
+}
+
 type lpSnap struct {
 	units   *big.Int
 	unlocks string
@@ -300,6 +324,7 @@ func init() {
 						hwrite()
 					}
 					judgeOthers(out, "hook", hb, snapAll(e, nProv), "", "", "", nil, L, C, h)
+					c02Units(e, out, "hook")
 				}
 				snapBefore := snapAll(e, nProv)
 				units := unitsOf(lpBefore)
@@ -388,6 +413,7 @@ func init() {
 					L, C = got.LiquidityRemovalLockPeriod, got.LiquidityRemovalCancelPeriod
 					out.Emit(fmt.Sprintf("par %d %d %d", h, L, C), "ok", "par", true)
 					judgeOthers(out, "par", snapBefore, snapAll(e, nProv), "", "", "", nil, L, C, h)
+					c02Units(e, out, "par")
 					continue
 				case op < 22: // add liquidity (symmetric: the pool was created 1:1)
 					var amt sdk.Uint
@@ -406,6 +432,7 @@ func init() {
 					if err != nil || pan || !okCalc {
 						out.Emit(fmt.Sprintf("# add %s refused: %v", key, err), "bad-op", "add.refused", false)
 						judgeOthers(out, "addrefused", snapBefore, snapAll(e, nProv), "", "", "", nil, L, C, h)
+						c02Units(e, out, "addrefused")
 						continue
 					}
 					dump, lpAfter := lpDump(e, pool, prov)
@@ -415,12 +442,14 @@ func init() {
 					out.Emit(fmt.Sprintf("chk c15.outstanding tag=add.outstanding %s %s", unitsOf(lpAfter), unlocksOf(lpAfter)), "true", "chk.outstanding", false)
 					out.Emit(fmt.Sprintf("chk c15.once tag=add.once %s other 1 %d 0 0 %s", key, L, unlocksOf(lpAfter)), "true", "chk.once", false)
 					judgeOthers(out, "add", snapBefore, snapAll(e, nProv), key, "", key, mintedCalc, L, C, h)
+					c02Units(e, out, "add")
 					continue
 				}
 				var line, kind string
 				var err error
 				var pan bool
 				reqUnits := sdk.ZeroUint()
+				rmW := sdk.ZeroUint()
 				switch {
 				case op < 50:
 					kind = "unlock"
@@ -442,7 +471,13 @@ func init() {
 						if w.IsZero() {
 							w = sdk.OneUint()
 						}
+					} else if lpBefore != nil && len(lpBefore.Unlocks) > 0 && rng.Chance(1, 3) {
+						w = lpBefore.Unlocks[0].Units // use a record up exactly
+						if w.IsZero() {
+							w = sdk.OneUint()
+						}
 					}
+					rmW = w
 					msg := &clptypes.MsgRemoveLiquidityUnits{Signer: prov.String(), ExternalAsset: &clptypes.Asset{Symbol: pool}, WithdrawUnits: w}
 					line = fmt.Sprintf("tx %d %s rmu %s %s", h, key, w, e.healthStage(pool, lpBefore, true, w, 0))
 					err, pan = e.deliver(h, msg.ValidateBasic, func(ctx sdk.Context) error { _, err := e.clp.RemoveLiquidityUnits(sdk.WrapSDKContext(ctx), msg); return err })
@@ -492,6 +527,7 @@ func init() {
 					out.Emit(fmt.Sprintf("chk c15.removereal tag=remove.real %s %d %d %d %s %s %s", key, L, C, h, unlocksOf(lpBefore), burned, acc), "true", "chk.remove", false)
 					out.Emit(fmt.Sprintf("chk c15.consume tag=remove.consume %d %s %s %s %s", L, unlocksOf(lpBefore), unlocksOf(lpAfter), burned, acc), "true", "chk.consume", false)
 					out.Emit(fmt.Sprintf("chk c15.lockzero tag=remove.lockzero %d %s", L, cls), "true", "chk.lockzero", false)
+					out.Emit(fmt.Sprintf("chk c02.burn tag=removal.burn %s %s %s %s", units, rmW, unitsOf(lpAfter), acc), "true", "chk.c02burn", false)
 				}
 				if kind == "unlock" { // the judge's request ledger: the height is the height this harness ran the message at
 					out.Emit(fmt.Sprintf("chk c15.request tag=unlock.request %s %d %s %s %s", key, h, reqUnits, acc, unlocksOf(lpAfter)), "true", "chk.request", false)
@@ -503,6 +539,7 @@ func init() {
 					skip = key // the signer's own record was judged just above
 				}
 				judgeOthers(out, kind, snapBefore, snapAll(e, nProv), key, skip, "", nil, L, C, h)
+				c02Units(e, out, kind+"."+cls)
 			}
 		}
 	}
